@@ -12,7 +12,7 @@ from __future__ import annotations
 import ast
 
 from ..paths import enumerate_paths
-from ..program import AnalysisError, Program, unparse, short, walk_no_nested
+from ..program import AnalysisError, Program, unparse, short, walk_no_nested, xunparse, single_defs, expand_locals
 from ..report import Report
 from . import c07, c19
 
@@ -45,7 +45,9 @@ def restored_set(prog: Program, rep: Report) -> None:
     rep.check(rule, fi.qual, "a variable without file value and without default stops the run", n_raise >= 1, what_bad="missing variables are ignored", what_ok="error + raise", loc=fi.loc(loop))
     # slices
     src = {unparse(n.targets[0]): unparse(n.value) for n in ast.walk(loop) if isinstance(n, ast.Assign) and isinstance(n.targets[0], ast.Name)}
-    inst = [n for n in ast.walk(loop) if isinstance(n, ast.If) and unparse(n.test) == f"{var} in state.instance_variables"]
+    KEEP = {"ncvar", "reftime", "values", "pcount", "pid_max", "pstart", "pend", "f", "state", "wvars", var}
+    fdefs = {k: v for k, v in single_defs(fi.node).items() if k not in KEEP}
+    inst = [n for n in ast.walk(loop) if isinstance(n, ast.If) and xunparse(n.test, fi.node, fdefs) == f"{var} in state.instance_variables"]
     ok = False
     for g in inst:
         b = [unparse(x) for x in g.body]
@@ -54,20 +56,24 @@ def restored_set(prog: Program, rep: Report) -> None:
             ok = True
     rep.check(rule, fi.qual, "instance variables read [pstart:pend] (last record), particle variables [:npid]", ok, what_bad="slices do not match the writer (instance data of the last record; particle data indexed by pid)", what_ok="last record / first npid entries", loc=fi.loc(loop))
     shp = [n for n in ast.walk(loop) if isinstance(n, ast.Assign) and unparse(n.targets[0]) == "shape"]
-    ok = bool(shp) and unparse(shp[0].value) == f"(pcount,) if {var} in state.instance_variables else (pid_max,)"
+    ok = bool(shp) and xunparse(shp[0].value, fi.node, fdefs) == f"(pcount,) if {var} in state.instance_variables else (pid_max,)"
     rep.check(rule, fi.qual, "defaults are filled with the matching length", ok, what_bad=f"shape = {unparse(shp[0].value) if shp else None}", what_ok="(pcount,) / (npid,)", loc=fi.loc(loop))
     # time-typed variables: inverse of the writer's conversion
-    tt = [n for n in ast.walk(loop) if isinstance(n, ast.Assign) and unparse(n.targets[0]) == "values" and "np.timedelta64" in unparse(n.value)]
-    ok = bool(tt) and unparse(tt[0].value) == "reftime + values * np.timedelta64(1, ncvar.units[0])"
-    rep.check("R08.7", fi.qual, "time-typed variables: reference + value * unit (inverse of the writer)", ok, what_bad=f"got {unparse(tt[0].value) if tt else None}", what_ok="reftime + values*timedelta64(1, units[0])", loc=fi.loc(loop))
+    tt = [n for n in ast.walk(loop) if isinstance(n, ast.Assign) and unparse(n.targets[0]) == "values" and "np.timedelta64" in xunparse(n.value, fi.node, fdefs)]
+    ok = bool(tt) and xunparse(tt[0].value, fi.node, fdefs) in ("reftime + values * np.timedelta64(1, ncvar.units[0])", "values * np.timedelta64(1, ncvar.units[0]) + reftime")
+    rep.check("R08.7", fi.qual, "time-typed variables: reference + value * unit (inverse of the writer)", ok, what_bad=f"got {xunparse(tt[0].value, fi.node, fdefs) if tt else None}", what_ok="reftime + values*timedelta64(1, units[0])", loc=fi.loc(loop))
     # unit letter = first letter of the CF unit word
     tkm = prog.module("timekeeper")
     table = {}
     for node in ast.walk(tkm.tree):
         if isinstance(node, (ast.Assign, ast.AnnAssign)):
             tgt = node.targets[0] if isinstance(node, ast.Assign) else node.target
-            if unparse(tgt) == "unit_table" and node.value is not None and isinstance(node.value, ast.Call):
-                table = {k.arg: ast.literal_eval(k.value) for k in node.value.keywords}
+            if unparse(tgt) == "unit_table" and node.value is not None:
+                v = node.value
+                if isinstance(v, ast.Call) and unparse(v.func) == "dict":
+                    table = {k.arg: ast.literal_eval(k.value) for k in v.keywords}
+                elif isinstance(v, ast.Dict):
+                    table = {ast.literal_eval(k): ast.literal_eval(x) for k, x in zip(v.keys, v.values)}
     rep.check("R08.7", "timekeeper.TimeKeeper", "unit letter = first letter of the unit word (reader uses units[0])", bool(table) and all(v[0] == k for k, v in table.items()), what_bad=f"unit_table {table}: the restart decodes time-typed variables with the wrong unit", what_ok="s/m/h/d", loc="ladim/timekeeper.py")
     # last record arithmetic (shared with C06 R06.7)
     defs = {unparse(n.targets[0]): unparse(n.value) for n in walk_no_nested(fi.node) if isinstance(n, ast.Assign) and isinstance(n.targets[0], ast.Name)}
@@ -119,13 +125,17 @@ def config_wiring(prog: Program, rep: Report) -> None:
     rep.check(rule, fi.qual, "release is told about the warm start file", assigns.get("config['release']['warm_start_file']") == "config['warm_start']['filename']", what_bad="the release module would release the start-time rows again", what_ok="release.warm_start_file", loc=fi.loc())
     rep.check(rule, fi.qual, "variables defaulted to []", assigns.get("config['warm_start']['variables']") == "[]", what_bad="Model.__init__ subscripts D['variables']", what_ok="[]", loc=fi.loc())
     rep.check(rule, fi.qual, "skip_initial defaults to True for warm starts", assigns.get("config['output']['skip_initial']") == "True", what_bad="the record count of the restarted run is predicted with the cold-start formula", what_ok="True", loc=fi.loc())
-    # Model uses the same file
-    mi = prog.func("model.Model.__init__")
-    calls = [n for n in walk_no_nested(mi.node) if isinstance(n, ast.Call) and unparse(n.func) == "warm_start"]
-    ok = len(calls) == 1 and [unparse(a) for a in calls[0].args] == ["D['filename']", "D['variables']", "self.state"]
-    d = [n for n in walk_no_nested(mi.node) if isinstance(n, ast.Assign) and unparse(n.targets[0]) == "D"]
-    ok = ok and bool(d) and unparse(d[0].value) == "config['warm_start']"
-    rep.check(rule, mi.qual, "warm_start(filename, variables, state) from the warm_start section", ok, what_bad=f"calls {[short(c) for c in calls]}", what_ok="ok", loc=mi.loc())
+    # Model restores from the warm_start section: warm_start(<sec>['filename'], <sec>['variables'], self.state)
+    calls = []
+    for q, f in prog.module("model").functions.items():
+        if f.cls != "Model":
+            continue
+        d = single_defs(f.node)
+        for n in walk_no_nested(f.node):
+            if isinstance(n, ast.Call) and unparse(n.func) == "warm_start":
+                calls.append((f, [xunparse(a, f.node, d) for a in n.args]))
+    ok = len(calls) == 1 and len(calls[0][1]) == 3 and calls[0][1][0].endswith("['filename']") and calls[0][1][1].endswith("['variables']") and calls[0][1][0][: -len("['filename']")] == calls[0][1][1][: -len("['variables']")] and calls[0][1][2] == "self.state"
+    rep.check(rule, "model.Model", "warm_start(section['filename'], section['variables'], self.state)", ok, what_bad=f"calls {[c[1] for c in calls]}", what_ok="ok", loc="ladim/model.py")
 
 
 def start_rows(prog: Program, rep: Report) -> None:
